@@ -33,6 +33,7 @@ CARDS = {
     "nlo-ffns": dict(order=[2, 0], mugrid=[[3.0, 4]], method="iterate-exact", iterations=2, xgrid=GRID),
     "lo-down": dict(order=[1, 0], init=[6.0, 5], mugrid=[[3.0, 4], [2.0, 3]], method="truncated", xgrid=GRID),
     "lo-qed": dict(order=[1, 1], mugrid=[[3.0, 4]], method="iterate-exact", iterations=1, xgrid=GRID),
+    "nlo-2cores": dict(order=[2, 0], mugrid=[[6.0, 5], [3.0, 4]], method="truncated", xgrid=[0.05, 0.2, 0.5, 0.8, 1.0], cores=2),
 }
 
 
@@ -113,7 +114,7 @@ def evaluate(case):
 def run(ctx):
     seeds = [0, 1, 2] if not ctx.thorough() else [0, 1, 2, 3, 4, 5, 6, 7]
     reps = 2
-    card_list = list(CARDS) if ctx.thorough() else ["lo-thr-2t", "nlo-ffns", "lo-down", "lo-qed"]
+    card_list = list(CARDS)
     cases = []
     for card in card_list:
         for seed in seeds:
